@@ -5,6 +5,7 @@ From M Require NumList.
 From M Require ExprCap.
 From M Require ChanSpec.
 From M Require ChanList.
+From M Require ExprScenario.
 From M Require ChanSpec.
 From M Require DecSpec.
 From M Require ExprModel.
@@ -12,6 +13,7 @@ From M Require LexBounds.
 From M Require LexModel.
 From M Require MoreSpecs.
 From M Require NumList.
+From M Require ParserModel.
 Import ListNotations.
 
 Module T_numlist_walk_spec. Import NumList. Local Open Scope bool_scope. Local Open Scope Z_scope.
@@ -109,4 +111,39 @@ Theorem C19_chanlist_spec :
 Proof. exact (@ChanList.chanlist_spec). Qed.
 End T_chanlist_spec.
 Definition C19_chanlist_spec := @T_chanlist_spec.C19_chanlist_spec.
+
+Module T_chan_entry_error. Import ExprScenario. Local Open Scope bool_scope. Local Open Scope Z_scope.
+Import ParserModel. Local Open Scope Z_scope.
+Local Open Scope Z_scope.
+Theorem C19_chan_entry_error :
+  forall c t idx cap,
+  LexModel.ty t = LexModel.T_EXPR ->
+  let '(c1, rep) := expr_chanlist c t idx cap in
+  (hd 0 rep = 1 -> c1 = error_push c (-170) None) /\ (hd 0 rep <> 1 -> c1 = c).
+Proof. exact (@ExprScenario.chan_entry_error). Qed.
+End T_chan_entry_error.
+Definition C19_chan_entry_error := @T_chan_entry_error.C19_chan_entry_error.
+
+Module T_num_entry_error. Import ExprScenario. Local Open Scope bool_scope. Local Open Scope Z_scope.
+Import ParserModel. Local Open Scope Z_scope.
+Local Open Scope Z_scope.
+Theorem C19_num_entry_error :
+  forall c t idx,
+  LexModel.ty t = LexModel.T_EXPR ->
+  let '(c1, rep) := expr_numlist c t idx in
+  (hd 0 rep = 1 -> c1 = error_push c (-170) None) /\ (hd 0 rep <> 1 -> c1 = c).
+Proof. exact (@ExprScenario.num_entry_error). Qed.
+End T_num_entry_error.
+Definition C19_num_entry_error := @T_num_entry_error.C19_num_entry_error.
+
+Module T_not_an_expression. Import ExprScenario. Local Open Scope bool_scope. Local Open Scope Z_scope.
+Import ParserModel. Local Open Scope Z_scope.
+Local Open Scope Z_scope.
+Theorem C19_not_an_expression :
+  forall c t idx cap,
+  LexModel.ty t <> LexModel.T_EXPR ->
+  expr_chanlist c t idx cap = (error_push c (-104) None, [1]) /\ expr_numlist c t idx = (error_push c (-104) None, [1]).
+Proof. exact (@ExprScenario.not_an_expression). Qed.
+End T_not_an_expression.
+Definition C19_not_an_expression := @T_not_an_expression.C19_not_an_expression.
 
